@@ -486,8 +486,19 @@ func init() {
 			}
 		}
 		res["gets"] = rec2.count("get")
-		after, err := listing(env.ws)
-		if err != nil {
+		// LoadOutputs returns on the first failing output while the restores of the other outputs may still be
+		// running in the registry's pool: the listing after a failed load is not stable and is only informative.
+		var after any
+		for try := 0; try < 5; try++ {
+			if lerr != nil || hung {
+				time.Sleep(20 * time.Millisecond)
+			}
+			after, err = listing(env.ws)
+			if err == nil {
+				break
+			}
+		}
+		if err != nil && lerr == nil && !hung {
 			return nil, err
 		}
 		res["after"] = after
